@@ -29,44 +29,77 @@ def load(prop):
     return importlib.import_module(f"bounded.{prop.lower()}")
 
 
-def run_suites(mod, tier, budget_s, seed):
+def _check_chunk(arg):
+    prop, sname, cases = arg
+    mod = load(prop)
+    suite = mod.SUITES[sname]
+    out = []
+    nontriv = 0
+    for case in cases:
+        try:
+            msg = suite.check(case)
+        except Exception as e:  # an escaping exception is a property failure only if the suite says so
+            msg = suite.on_exception(case, e) if hasattr(suite, "on_exception") else \
+                f"unexpected {type(e).__name__}: {e}"
+        if suite.nontrivial(case):
+            nontriv += 1
+        if msg:
+            out.append((suite.classify(case, msg), suite.describe(case), msg))
+    return len(cases), nontriv, out
+
+
+def _chunks(gen, n):
+    buf = []
+    for x in gen:
+        buf.append(x)
+        if len(buf) >= n:
+            yield buf
+            buf = []
+    if buf:
+        yield buf
+
+
+def run_suites(mod, tier, budget_s, seed, prop=None, jobs=16):
+    import multiprocessing as mp
     out = {"suites": {}, "violations": [], "evaluations": 0, "distinct_nontrivial": 0, "samples": []}
-    t0 = time.time()
-    for name, suite in mod.SUITES.items():
-        n = 0
-        nontriv = 0
-        vio = []
-        samples = []
-        st = time.time()
-        exhausted = True
-        seen_classes = {}
-        for case in suite.enumerate(tier):
-            if time.time() - t0 > budget_s:
+    nsuites = max(1, len(mod.SUITES))
+    with mp.Pool(jobs) as pool:
+        for name, suite in mod.SUITES.items():
+            st = time.time()
+            per_suite = budget_s / nsuites
+            n = nontriv = 0
+            seen_classes = {}
+            vio = []
+            samples = []
+            exhausted = True
+            csize = getattr(suite, "chunk", 200)
+
+            def feed():
+                for ch in _chunks(suite.enumerate(tier), csize):
+                    if time.time() - st > per_suite:
+                        nonlocal_flag.append(1)
+                        return
+                    if len(samples) < 3:
+                        samples.append(suite.describe(ch[len(ch) // 2]))
+                    yield (prop, name, ch)
+            nonlocal_flag = []
+            for cnt, nt, bad in pool.imap_unordered(_check_chunk, feed(), chunksize=1):
+                n += cnt
+                nontriv += nt
+                for cls, case, msg in bad:
+                    if cls not in seen_classes:
+                        seen_classes[cls] = 0
+                        vio.append({"suite": name, "class": cls, "case": case, "message": msg})
+                    seen_classes[cls] += 1
+            if nonlocal_flag:
                 exhausted = False
-                break
-            n += 1
-            try:
-                msg = suite.check(case)
-            except Exception as e:  # an escaping exception is a property failure only if the suite says so
-                msg = suite.on_exception(case, e) if hasattr(suite, "on_exception") else \
-                    f"unexpected {type(e).__name__}: {e}"
-            if suite.nontrivial(case):
-                nontriv += 1
-            if len(samples) < 3 and n % 97 == 1:
-                samples.append(suite.describe(case))
-            if msg:
-                cls = suite.classify(case, msg)
-                if cls not in seen_classes:
-                    seen_classes[cls] = 0
-                    vio.append({"suite": name, "class": cls, "case": suite.describe(case), "message": msg})
-                seen_classes[cls] += 1
-        out["suites"][name] = {"cases": n, "nontrivial": nontriv, "bound": suite.bound(tier),
-                               "exhaustive": exhausted, "seconds": round(time.time() - st, 2),
-                               "violation_classes": seen_classes}
-        out["evaluations"] += n
-        out["distinct_nontrivial"] += nontriv
-        out["violations"].extend(vio)
-        out["samples"].extend({"suite": name, "case": s} for s in samples)
+            out["suites"][name] = {"cases": n, "nontrivial": nontriv, "bound": suite.bound(tier),
+                                   "exhaustive": exhausted, "seconds": round(time.time() - st, 2),
+                                   "violation_classes": seen_classes}
+            out["evaluations"] += n
+            out["distinct_nontrivial"] += nontriv
+            out["violations"].extend(vio)
+            out["samples"].extend({"suite": name, "case": s_} for s_ in samples)
     return out
 
 
@@ -116,7 +149,7 @@ def main():
         json.dump(res, open(a.out, "w"), indent=1, default=str)
         return
     budget = a.budget or (120 if a.tier == "quick" else 1500)
-    res = run_suites(mod, a.tier, budget, seed)
+    res = run_suites(mod, a.tier, budget, seed, prop=a.prop)
     if a.out:
         json.dump(res, open(a.out, "w"), indent=1, default=str)
     else:
